@@ -20,6 +20,7 @@ from mc.core import Acc, Violation, scratch_root, worker_scratch
 from mc.ref import table as T
 
 PROPERTY = "C13"
+SIZE_MODULES = ['mokapot.tabular_data', 'mokapot.streaming']  # see mc.runner._sized_passes
 LEVEL = "exploration"
 RULE = (
     "reader cases = (rows n, reader kind incl. Parquet row-group size, chunk size, requested columns), "
